@@ -40,12 +40,16 @@ def main() -> None:
         try:
             subprocess.run(["git", "-C", "/repo", "worktree", "add", "-q", "--detach", copy, "HEAD"], check=True)
             env = dict(os.environ, PYTHONPATH=copy)
-            rc0, out0 = sh([PY, os.path.join(d, "demo.py")], copy, env, 600)
+            # the demonstrations were written as <worktree>/out/demoN.py and some locate the project relative to themselves
+            os.makedirs(os.path.join(copy, "out"), exist_ok=True)
+            demo = os.path.join(copy, "out", "demo.py")
+            shutil.copy(os.path.join(d, "demo.py"), demo)
+            rc0, out0 = sh([PY, demo], copy, env, 600)
             rca, outa = sh(["git", "apply", os.path.join(d, "patch.diff")], copy)
             if rca != 0:
                 summary.append({"id": sid, "error": "patch does not apply: " + outa[-300:]})
                 continue
-            rc1, out1 = sh([PY, os.path.join(d, "demo.py")], copy, env, 600)
+            rc1, out1 = sh([PY, demo], copy, env, 600)
             tests_ok = None
             if not a.skip_tests:
                 rct, outt = sh([PY, "-m", "pytest", "-q", "-p", "no:cacheprovider"], copy, env, 1800)
